@@ -44,10 +44,14 @@ ASSUMPTIONS = [
 MIN_EVENTS = {
     'quick': {'oracle_evals': 200000, 'instances': 30000, 'layout_checks': 30000, 'from_bytes_checks': 25000,
               'rebuild_checks': 20000, 'pollution_steps': 3000, 'ertm_fields': 5000, 'rfcomm_frames': 2000,
-              'sdp_elements': 3000, 'sdp_size_boundaries': 16, 'uuid_ops': 3000, 'generic_classes_covered': 100},
+              'sdp_elements': 3000, 'sdp_size_boundaries': 16, 'uuid_ops': 3000, 'inst_l2cap-sig': 3000, 'inst_att': 5000,
+              'inst_smp': 2000, 'inst_sdp-pdu': 1000, 'inst_avdtp': 6000, 'inst_avrcp-cmd': 3000, 'inst_avrcp-rsp': 3000,
+              'inst_avrcp-evt': 1000, 'inst_avrcp-item': 500},
     'thorough': {'oracle_evals': 3000000, 'instances': 500000, 'layout_checks': 500000, 'from_bytes_checks': 400000,
                  'rebuild_checks': 300000, 'pollution_steps': 50000, 'ertm_fields': 33000, 'rfcomm_frames': 30000,
-                 'sdp_elements': 50000, 'sdp_size_boundaries': 100, 'uuid_ops': 50000, 'generic_classes_covered': 100},
+                 'sdp_elements': 50000, 'sdp_size_boundaries': 100, 'uuid_ops': 50000, 'inst_l2cap-sig': 60000, 'inst_att': 100000,
+                 'inst_smp': 40000, 'inst_sdp-pdu': 20000, 'inst_avdtp': 120000, 'inst_avrcp-cmd': 60000, 'inst_avrcp-rsp': 60000,
+                 'inst_avrcp-evt': 20000, 'inst_avrcp-item': 10000},
 }
 CASE_TIMEOUT = 900
 SHARD_TIMEOUT = {'quick': 900, 'thorough': 7200}
@@ -97,14 +101,28 @@ class Ev:
 
     def __init__(self, r: R, fam: str, unit: str, rng: random.Random, ctx=None):
         self.r, self.fam, self.unit, self.rng, self.ctx = r, fam, unit, rng, ctx
+        self.failed = False
+
+    def begin(self):
+        """start of a new instance: only its first failing clause is reported (the later
+        clauses of the same instance nearly always restate the same mechanism)"""
+        self.failed = False
+        self.r.ev('instances')
+
+    def _report(self, key, detail):
+        if self.failed:
+            self.r.ev('secondary_clause_failures_not_reported')
+            return
+        self.failed = True
+        self.r.bad(key, detail() if callable(detail) else detail)
 
     def bad(self, clause, disc, detail, unit=None):
-        self.r.bad(key_of(self.fam, unit or self.unit, clause, disc), detail)
+        self._report(key_of(self.fam, unit or self.unit, clause, disc), detail)
 
     def check(self, cond, clause, disc, detail, unit=None):
         self.r.ev('oracle_evals')
         if not cond:
-            self.bad(clause, disc, detail() if callable(detail) else detail, unit)
+            self.bad(clause, disc, detail, unit)
         return cond
 
     def eq_values(self, want, got, clause, disc, detail):
@@ -113,10 +131,10 @@ class Ev:
         if want == got:
             return True
         if only_uuid_width(want, got):
-            self.r.bad(key_of(self.fam, 'uuid-field', clause, 'width-changed'),
-                       f'{self.unit}: ' + (detail() if callable(detail) else detail))
+            self._report(key_of(self.fam, 'uuid-field', clause, 'width-changed'),
+                         lambda: f'{self.unit}: ' + (detail() if callable(detail) else detail))
         else:
-            self.bad(clause, disc, detail() if callable(detail) else detail)
+            self.bad(clause, disc, detail)
         return False
 
     def guarded(self, clause, disc, fn, detail):
@@ -125,8 +143,9 @@ class Ev:
             return True, fn()
         except Exception as e:  # noqa
             self.r.ev('oracle_evals')
+            msg = f'{type(e).__name__}: {e} :: '
             self.bad(f'{clause}-raises', f'{disc + "/" if disc else ""}{type(e).__name__}',
-                     f'{type(e).__name__}: {e} :: ' + (detail() if callable(detail) else detail))
+                     lambda: msg + (detail() if callable(detail) else detail))
             return False, None
 
     def remember(self, parse, data, obj):
@@ -359,6 +378,9 @@ def from_obj(fields, obj):
 def first_diff(fields, want, got):
     for (n, k), w, g in zip(fields, want, got):
         if w != g:
+            if k.tag == 'caps' and isinstance(g, list):
+                i = next((j for j in range(min(len(w), len(g))) if w[j] != g[j]), None)
+                return f'{n}:' + (RU.Caps.cap_class(w[i]) if i is not None else 'count')
             c = k.cls_of(w)
             name = n if n != '@g' else '+'.join(sn for sn, _ in k.fields)
             return f'{name}:{c}' if c else name
@@ -430,6 +452,9 @@ class Family:
     def extra(self, ev, unit, values, obj, where):
         pass
 
+    def hdr_class(self, hdr):
+        return None
+
 
 def eval_generic(F: Family, ev: Ev, unit: str):
     r, rng = ev.r, ev.rng
@@ -447,8 +472,11 @@ def eval_generic(F: Family, ev: Ev, unit: str):
     hdr = F.gen_hdr(rng)
     ref = F.frame(unit, hdr, RU.enc_fields(fields, values))
     vc = RU.value_classes(fields, values)
+    if F.hdr_class(hdr):
+        vc.append(F.hdr_class(hdr))
     vcs = '+'.join(vc)
-    r.ev('instances')
+    rdisc = F.hdr_class(hdr) or vcs
+    ev.begin()
     r.ev(f'inst_{F.name}')
     r.sig(F.name, unit, tuple(vc), length_class(len(ref)))
     what = lambda: f'{unit} hdr={hdr} values={short(values, 300)} ref={hx(ref)}'  # noqa
@@ -486,7 +514,7 @@ def eval_generic(F: Family, ev: Ev, unit: str):
                 ev.check(h2 == hdr, 'value', 'header', lambda: f'{what()} parsed header {h2}')
                 oks, b2 = ev.guarded('reserialise', vcs, lambda: F.serialise(p, hdr), what)
                 if oks:
-                    ev.check(b2 == b1, 'reserialise', vcs, lambda: f'{what()} b1={hx(b1)} again={hx(b2)}')
+                    ev.check(b2 == b1, 'reserialise', rdisc, lambda: f'{what()} b1={hx(b1)} again={hx(b2)}')
                 derived_check(p, '')
                 F.extra(ev, unit, values, p, 'A')
                 # ---- B: rebuild from the parsed fields --------------------------
@@ -494,7 +522,7 @@ def eval_generic(F: Family, ev: Ev, unit: str):
                 okb, b3 = ev.guarded('rebuild', vcs, lambda: F.serialise(
                     F.build(cls, h2, {n: getattr(p, n) for n in flat_names(fields)}), hdr), what)
                 if okb:
-                    ev.eq_values(b1, b3, 'rebuild', vcs, lambda: f'{what()} b1={hx(b1)} rebuilt={hx(b3)}')
+                    ev.eq_values(b1, b3, 'rebuild', rdisc, lambda: f'{what()} b1={hx(b1)} rebuilt={hx(b3)}')
     # ---- D: from the reference bytes -------------------------------------------
     r.ev('from_bytes_checks')
     okp, p = ev.guarded('from-bytes/parse', vcs, lambda: F.parse(unit, hdr, ref), what)
@@ -509,12 +537,12 @@ def eval_generic(F: Family, ev: Ev, unit: str):
             F.extra(ev, unit, values, p, 'D')
             oks, b2 = ev.guarded('from-bytes/reserialise', vcs, lambda: F.serialise(p, hdr), what)
             if oks:
-                ev.check(b2 == ref, 'from-bytes/reserialise', vcs, lambda: f'{what()} again={hx(b2)}')
+                ev.check(b2 == ref, 'from-bytes/reserialise', rdisc, lambda: f'{what()} again={hx(b2)}')
             h2 = F.hdr_of(p, hdr)
             okb, b3 = ev.guarded('from-bytes/rebuild', vcs, lambda: F.serialise(
                 F.build(cls, h2, {n: getattr(p, n) for n in flat_names(fields)}), hdr), what)
             if okb:
-                ev.eq_values(ref, b3, 'from-bytes/rebuild', vcs, lambda: f'{what()} rebuilt={hx(b3)}')
+                ev.eq_values(ref, b3, 'from-bytes/rebuild', rdisc, lambda: f'{what()} rebuilt={hx(b3)}')
 
 
 # ---- the registries -----------------------------------------------------------
@@ -651,6 +679,12 @@ class Avdtp(Family):
         return RU.avdtp_single(hdr['label'], mt, sig, payload)
 
     def build(self, cls, hdr, kw):
+        from bumble import avdtp
+        kw = dict(kw)
+        if 'error_code' in kw:
+            kw['error_code'] = avdtp.ErrorCode(kw['error_code'])
+        if 'service_category' in kw:
+            kw['service_category'] = avdtp.ServiceCategory(kw['service_category'])
         return cls(**kw)
 
     def serialise(self, obj, hdr):
@@ -751,6 +785,9 @@ class AvrcpItem(Family):
         # items are parsed at an offset inside a GetFolderItems response
         return {'offset': rng.choice([0, 0, 5, 1, 9])}
 
+    def hdr_class(self, hdr):
+        return 'offset>0' if hdr['offset'] else None
+
     def build(self, cls, hdr, kw):
         return cls(**kw)
 
@@ -828,7 +865,7 @@ def ertm_one(ev: Ev, kind, tx, req, sar, s, poll, final):
 
 def ev_ertm(ev: Ev, unit):
     rng = ev.rng
-    ev.r.ev('instances')
+    ev.begin()
     if unit == 'i-frame':
         tx, req, sar, final = rng.choice([0, 1, 31, 32, 63, rng.randint(0, 63)]), rng.choice([0, 1, 63, rng.randint(0, 63)]), rng.randint(0, 3), rng.randint(0, 1)
         ev.r.sig('ertm', 'i', sar, final, tx in (0, 63), req in (0, 63))
@@ -846,7 +883,7 @@ def ev_psm(ev: Ev, unit):
     psm = k.gen(ev.rng)
     ref = k.enc(psm)
     disc = k.cls_of(psm)
-    ev.r.ev('instances')
+    ev.begin()
     ev.r.sig('psm', disc, len(ref))
     what = lambda: f'psm={psm:#x} ref={ref.hex()}'  # noqa
     C = l2cap.L2CAP_Connection_Request
@@ -867,7 +904,7 @@ def ev_unknown_code(ev: Ev, unit):
     from bumble import att, l2cap, smp
     rng = ev.rng
     body = RU.rnd_bytes(rng, rng.choice([0, 1, 2, 7, 30]))
-    ev.r.ev('instances')
+    ev.begin()
     if unit == 'l2cap-sig':
         known = {int(c) for c in l2cap.L2CAP_Control_Frame.classes}
         code = rng.choice([c for c in (0x0C, 0x0D, 0x0E, 0x0F, 0x10, 0x11, 0x1B, 0x7F, 0xFF) if c not in known])
@@ -942,7 +979,7 @@ def sdp_element(ev: Ev, e, unit, size_index=None, boundary=None):
 
 def ev_sdp_element(ev: Ev, unit):
     rng = ev.rng
-    ev.r.ev('instances')
+    ev.begin()
     if unit == 'int128':
         t = rng.choice(['uint', 'sint'])
         v = RU.gen_int(rng, 128) if t == 'uint' else rng.choice([0, -1, (1 << 127) - 1, -(1 << 127), rng.getrandbits(127)])
@@ -970,7 +1007,7 @@ def case_sdp_bounds(case, r: R):
     ev = Ev(r, 'sdp-element', 'size-boundary', rng)
     for total in (254, 255, 256, 257, 65534, 65535, 65536, 65537):
         for kind in ('text', 'url', 'seq', 'alt'):
-            r.ev('instances')
+            ev.begin()
             r.ev('sdp_size_boundaries')
             if kind == 'text':
                 e = ('text', RU.rnd_bytes(rng, total))
@@ -980,6 +1017,7 @@ def case_sdp_bounds(case, r: R):
                 e = RU.de_padded_seq(kind, total, rng)
             sdp_element(ev, e, 'size-boundary', boundary=f'{kind}/size={total}')
             if total >= 65535 and kind in ('text', 'seq'):
+                ev.begin()
                 # the same element nested: the outer size field crosses its own boundary
                 sdp_element(ev, ('seq', [e]), 'size-boundary', boundary=f'{kind}/size={total}/nested')
     r.evals(1)
@@ -1043,7 +1081,7 @@ def rfcomm_one(ev: Ev, ftype_name, c_r, dlci, p_f, payload: bytes, credits):
 
 def ev_rfcomm_frame(ev: Ev, unit):
     rng = ev.rng
-    ev.r.ev('instances')
+    ev.begin()
     c_r, p_f = rng.randint(0, 1), rng.randint(0, 1)
     dlci = rng.choice([0, 2, 3, 61, rng.randint(2, 61)])
     if unit in ('sabm', 'ua', 'dm', 'disc'):
@@ -1063,16 +1101,16 @@ def case_rfcomm_grid(case, r: R):
     for n in list(range(0, 4)) + list(range(120, 136)) + [254, 255, 256, 257, 16383, 16384, 32766, 32767]:
         for c_r in (0, 1):
             for dlci in (0, 2, 61):
-                r.ev('instances')
+                ev.begin()
                 rfcomm_one(ev, 'uih', c_r, dlci, 0, RU.rnd_bytes(rng, n), None)
                 if dlci:
-                    r.ev('instances')
+                    ev.begin()
                     rfcomm_one(ev, 'uih', c_r, dlci, 1, RU.rnd_bytes(rng, n), rng.randint(0, 255))
     for t in ('sabm', 'ua', 'dm', 'disc'):
         for c_r in (0, 1):
             for p_f in (0, 1):
                 for dlci in range(0, 64):
-                    r.ev('instances')
+                    ev.begin()
                     rfcomm_one(ev, t, c_r, dlci, p_f, b'', None)
     r.evals(1)
     r.sample = {'kind': 'rfcomm-grid', 'payload_lengths': '0-3,120-135,254-257,16383,16384,32766,32767', 'with_and_without_credit': True}
@@ -1081,7 +1119,7 @@ def case_rfcomm_grid(case, r: R):
 def ev_rfcomm_mcc(ev: Ev, unit):
     from bumble import rfcomm
     rng, r = ev.rng, ev.r
-    r.ev('instances')
+    ev.begin()
     if unit == 'mcc':
         t = rng.choice([0x20, 0x38, 0x08, 0x28, 0x04, rng.randint(0, 0x3F)])
         c_r = rng.randint(0, 1)
@@ -1145,7 +1183,7 @@ def ev_rfcomm_mcc(ev: Ev, unit):
 def ev_avctp(ev: Ev, unit):
     from bumble import avctp
     rng, r = ev.rng, ev.r
-    r.ev('instances')
+    ev.begin()
     label = rng.randint(0, 15)
     is_command = rng.random() < 0.5
     ipid = (not is_command) and rng.random() < 0.3
@@ -1180,10 +1218,10 @@ def ev_avctp(ev: Ev, unit):
 def ev_avc(ev: Ev, unit):
     from bumble import avc
     rng, r = ev.rng, ev.r
-    r.ev('instances')
+    ev.begin()
     is_cmd = 'Command' in unit
     code = rng.choice([0, 1, 2, 3, 4]) if is_cmd else rng.choice([0x8, 0x9, 0xA, 0xB, 0xC, 0xD, 0xF])
-    st = rng.choice([0x09, 0x1F, 0x00, 0x01, 0x1C, rng.choice([x for x in range(0x1E)])])
+    st = rng.choice([0x09, 0x1F, 0x00, 0x01, 0x1C, rng.choice([int(x) for x in avc.Frame.SubunitType if int(x) != 0x1E])])
     sid = rng.choice([0, 0, 1, 4, 7])
     disc = None
     if unit.startswith('VendorDependent'):
@@ -1249,7 +1287,7 @@ def ev_avc(ev: Ev, unit):
 def ev_avrcp_special(ev: Ev, unit):
     from bumble import avrcp
     rng, r = ev.rng, ev.r
-    r.ev('instances')
+    ev.begin()
     if unit == 'GetCapabilitiesResponse':
         if rng.random() < 0.5:
             cap_id, caps = 2, [rng.choice([0x001958, rng.getrandbits(24)]).to_bytes(3, 'big') for _ in range(rng.choice([1, 2, 5]))]
@@ -1381,7 +1419,7 @@ def ev_avrcp_special(ev: Ev, unit):
 def ev_rtp(ev: Ev, unit):
     from bumble import rtp
     rng, r = ev.rng, ev.r
-    r.ev('instances')
+    ev.begin()
     ncsrc = rng.choice([0, 0, 1, 2, 3, 15])
     v = dict(version=rng.choice([2, 2, 0, 3]), padding=rng.randint(0, 1), extension=rng.randint(0, 1), marker=rng.randint(0, 1),
              sequence_number=RU.gen_int(rng, 16), timestamp=RU.gen_int(rng, 32), ssrc=RU.gen_int(rng, 32),
@@ -1434,7 +1472,7 @@ def ev_rtp(ev: Ev, unit):
 def ev_a2dp(ev: Ev, unit):
     from bumble import a2dp
     rng, r = ev.rng, ev.r
-    r.ev('instances')
+    ev.begin()
     gen = {'sbc': RU.gen_sbc, 'aac': RU.gen_aac,
            'vendor': lambda g: (rng.choice([0x0F, 0x12D, rng.getrandbits(32)]), rng.choice([2, 0xAA, rng.getrandbits(16)]), RU.rnd_bytes(g, rng.choice([0, 1, 8]))),
            'opus': lambda g: (g.randint(0, 7), g.randint(0, 3), g.randint(0, 1))}[unit]
@@ -1519,7 +1557,7 @@ def ad_view(name, obj):
 def ev_ad_typed(ev: Ev, unit):
     from bumble import core, data_types
     rng, r = ev.rng, ev.r
-    r.ev('instances')
+    ev.begin()
     ad_type, style, fields = RU.AD_TYPES[unit]
     cls = getattr(data_types, unit)
     values = RU.gen_fields(fields, rng)
@@ -1569,7 +1607,7 @@ def ev_ad_typed(ev: Ev, unit):
 def ev_advertising_data(ev: Ev, unit):
     from bumble import core
     rng, r = ev.rng, ev.r
-    r.ev('instances')
+    ev.begin()
     n = rng.choice([0, 1, 2, 3, 6])
     structs = []
     for _ in range(n):
@@ -1608,7 +1646,7 @@ def ev_advertising_data(ev: Ev, unit):
 def ev_address(ev: Ev, unit):
     from bumble import hci
     rng, r = ev.rng, ev.r
-    r.ev('instances')
+    ev.begin()
     le = RU.Addr().gen(rng)
     t = rng.randint(0, 3)
     public = t in (0, 2)
@@ -1659,7 +1697,7 @@ def ev_address(ev: Ev, unit):
 def ev_uuid(ev: Ev, unit):
     from bumble.core import UUID
     rng, r = ev.rng, ev.r
-    r.ev('instances')
+    ev.begin()
     r.ev('uuid_ops')
     le = RU.gen_uuid(rng)
     cl = RU.uuid_class(le)
@@ -1813,8 +1851,6 @@ def all_units(r: R | None = None):
         for name in sorted(classes):
             if name in F.ref:
                 out.append((F.name, name))
-                if r is not None:
-                    r.extra.setdefault('generic_classes', [])
             elif name in HANDLED_ELSEWHERE.get(F.name, {}):
                 pass
             elif r is not None:
@@ -1849,17 +1885,87 @@ def eval_item(item, r: R, ctx: Ctx | None = None):
 _SOLO_CACHE: dict[str, bool] = {}
 
 
-def solo_keys(item) -> set | None:
-    """violation keys of the item evaluated alone in a fresh interpreter"""
-    try:
-        p = subprocess.run([sys.executable, '-m', 'checks.c18', '--solo', json.dumps(item)], capture_output=True,
-                           text=True, timeout=120, env=dict(os.environ), cwd=os.path.dirname(os.path.dirname(os.path.abspath(__file__))))
-        line = [ln for ln in p.stdout.splitlines() if ln.startswith('SOLO ')]
-        if not line:
-            return None
-        return set(json.loads(line[-1][5:]))
-    except Exception:
+class _SoloServer:
+    """A helper interpreter that has imported bumble and nothing else: for every request it
+    forks, and the child -- a pristine copy of the just-imported state, i.e. what a fresh
+    process looks like -- evaluates one work item alone and reports its violation keys."""
+
+    def __init__(self):
+        self.p = None
+
+    def start(self):
+        root = os.path.dirname(os.path.dirname(os.path.abspath(__file__)))
+        self.p = subprocess.Popen([sys.executable, '-m', 'checks.c18', '--solo-server'], stdin=subprocess.PIPE,
+                                  stdout=subprocess.PIPE, stderr=subprocess.DEVNULL, text=True, env=dict(os.environ), cwd=root)
+
+    def ask(self, item):
+        import select
+        for attempt in (0, 1):
+            try:
+                if self.p is None or self.p.poll() is not None:
+                    self.start()
+                self.p.stdin.write(json.dumps(item) + '\n')
+                self.p.stdin.flush()
+                ready, _, _ = select.select([self.p.stdout], [], [], 120)
+                if not ready:
+                    self.p.kill()
+                    self.p = None
+                    return None
+                line = self.p.stdout.readline()
+                if line.startswith('SOLO '):
+                    return set(json.loads(line[5:]))
+                if line.startswith('SOLO-ERROR'):
+                    return None
+            except Exception:
+                self.p = None
         return None
+
+
+_SOLO = _SoloServer()
+
+
+def solo_keys(item) -> set | None:
+    """violation keys of the item evaluated alone in a fresh process"""
+    return _SOLO.ask(item)
+
+
+def _solo_child(item) -> str:
+    rr = R({})
+    try:
+        eval_item(item, rr, None)
+        return 'SOLO ' + json.dumps(sorted({v['key'] for v in rr.violations}))
+    except Exception as e:  # noqa
+        return f'SOLO-ERROR {type(e).__name__}: {e}'
+
+
+def _solo_server():
+    all_units(None)  # imports every bumble module the check touches; executes no codec
+    from bumble import a2dp, avc, avctp, data_types, rfcomm, rtp  # noqa
+    for line in sys.stdin:
+        line = line.strip()
+        if not line:
+            continue
+        item = json.loads(line)
+        rd, wr = os.pipe()
+        pid = os.fork()
+        if pid == 0:
+            try:
+                os.close(rd)
+                out = _solo_child(item)
+                os.write(wr, out.encode())
+            finally:
+                os._exit(0)
+        os.close(wr)
+        chunks = []
+        while True:
+            c = os.read(rd, 65536)
+            if not c:
+                break
+            chunks.append(c)
+        os.close(rd)
+        os.waitpid(pid, 0)
+        sys.stdout.write((b''.join(chunks).decode() or 'SOLO-ERROR empty') + '\n')
+        sys.stdout.flush()
 
 
 def run_item_with_history(item, r: R, ctx: Ctx):
@@ -1883,8 +1989,9 @@ def run_item_with_history(item, r: R, ctx: Ctx):
     for v in tmp.violations:
         hist = _SOLO_CACHE.get(v['key'])
         key = v['key'] + ('/history-dependent' if hist else '')
-        note = {True: ' [history-dependent: the same item alone in a fresh process is clean]',
-                False: ' [also fails alone in a fresh process]', None: ' [fresh re-run unavailable]'}[hist]
+        how = '' if v['key'] in need else ' (classification from an earlier item with the same key in this shard)'
+        note = {True: ' [history-dependent: the item alone in a fresh process is clean' + how + ']',
+                False: ' [also fails alone in a fresh process' + how + ']', None: ' [fresh re-run unavailable]'}[hist]
         r.bad(key, v['detail'] + note + f' item={json.dumps(item)}')
 
 
@@ -1892,7 +1999,8 @@ def case_mix(case, r: R):
     rng = random.Random(f'mix/{case["seed"]}')
     ctx = Ctx()
     units = all_units(r)
-    r.ev('generic_classes_covered', sum(1 for f, _ in units if f in GENERIC_BY_NAME) if case.get('_i', 0) == 0 or True else 0)
+    r.extra['generic_classes_per_case'] = sum(1 for f, _ in units if f in GENERIC_BY_NAME)
+    r.extra['units_per_case'] = len(units)
     items = [{'fam': f, 'unit': u, 's': case['seed'] * 1000 + j, 'n': case['per_unit']} for j, (f, u) in enumerate(units)]
     rng.shuffle(items)
     for it in items:
@@ -1908,12 +2016,12 @@ def case_ertm_all(case, r: R):
         for req in range(64):
             for sar in range(4):
                 for final in (0, 1):
-                    r.ev('instances')
+                    ev.begin()
                     ertm_one(ev, 'i', tx, req, sar, 0, 0, final)
     for s in range(4):
         for req in range(64):
             for poll, final in ((0, 0), (1, 0), (0, 1)):
-                r.ev('instances')
+                ev.begin()
                 ertm_one(ev, 's', 0, req, 0, s, poll, final)
     r.sig('ertm', 'exhaustive')
     r.evals(1)
@@ -1954,11 +2062,7 @@ TECHNIQUE = 'runtime monitoring: differential round-trip oracle against independ
 if __name__ == '__main__':
     import logging
     logging.disable(logging.CRITICAL)
-    if len(sys.argv) >= 3 and sys.argv[1] == '--solo':
-        it = json.loads(sys.argv[2])
-        rr = R({})
-        try:
-            eval_item(it, rr, None)
-            print('SOLO ' + json.dumps(sorted({v['key'] for v in rr.violations})))
-        except Exception as e:  # noqa
-            print(f'SOLO-ERROR {type(e).__name__}: {e}')
+    if len(sys.argv) >= 2 and sys.argv[1] == '--solo-server':
+        _solo_server()
+    elif len(sys.argv) >= 3 and sys.argv[1] == '--solo':
+        print(_solo_child(json.loads(sys.argv[2])))
